@@ -457,7 +457,15 @@ pub fn write_evidence(prop: &dyn Property, tier: Tier, seed: u64, out: &Outcome,
     let mut coverage = serde_json::Map::new();
     coverage.insert("evaluations".into(), json!(st.evaluations));
     coverage.insert("distinct_nontrivial".into(), json!(st.distinct_nontrivial()));
-    coverage.insert("rule".into(), json!(prop.rule()));
+    let mut rule = prop.rule();
+    if let Some(n) = st.counters.get("big_families") {
+        rule.push_str(&format!(
+            " In addition {} enumerated document sequences beyond the small scope, sized around limits a maintainer might introduce (n in {:?}): the threshold family of C03 for each n, n siblings whose names differ only in separators (n colliding struct names and field identifiers, also spread over two documents), n known attributes or children followed by six new ones at once (behind, in front, in a second document), chains of nesting depth n (distinct names, one name, alternating names; a text leaf and an attribute at the bottom, a second document adding a sibling there), and a child repeated after n other children.",
+            n,
+            crate::props::smallscope::BIG_SIZES
+        ));
+    }
+    coverage.insert("rule".into(), json!(rule));
     coverage.insert("samples".into(), json!(st.samples));
     coverage.insert("classes".into(), json!(st.counters));
     coverage.insert("exhaustive".into(), json!(prop.exhaustive()));
